@@ -66,6 +66,23 @@ type UnknownV struct {
 	Why string
 }
 
+// LazyV: a value of type T that has not been looked at yet (the result of an assumed contract at
+// driver level: a decoded NGAP PDU).  It is materialised — value-nested parts eagerly, pointers and
+// sequences lazily again — the first time it is read, and kept in constObjs, so that every later
+// read on any path sees the same symbols: "the" decoded message.
+type LazyV struct {
+	T    types.Type
+	Name string
+}
+
+// LazySeqV: the elements of a sequence of non-scalars of unknown length; element i is materialised
+// when first read at a constant index and remembered.
+type LazySeqV struct {
+	Elem types.Type
+	Name string
+	memo map[int64]Value
+}
+
 type Object struct {
 	id     int
 	Typ    types.Type // type of the stored value (element type for backing stores)
@@ -234,6 +251,12 @@ func (x *Exec) freshValue(name string, t types.Type, depth int) Value {
 		return ArrayV{e}
 	case *types.Pointer:
 		if depth <= 0 {
+			if x.lazy {
+				o := x.newObject(u.Elem(), name)
+				o.Birth = -1
+				x.constObjs[o] = LazyV{T: u.Elem(), Name: "*" + name}
+				return PtrV{Obj: o, Nil: False()}
+			}
 			return UnknownV{t, "pointer depth"}
 		}
 		o := x.newObject(u.Elem(), name)
@@ -259,6 +282,14 @@ func (x *Exec) freshValue(name string, t types.Type, depth int) Value {
 		}
 		if n, ok := x.shapeOf(name); ok {
 			return x.freshConcreteSlice(name, u.Elem(), n, depth)
+		}
+		if x.lazy {
+			o := x.newObject(u.Elem(), name)
+			o.Birth = -1
+			x.constObjs[o] = LazySeqV{Elem: u.Elem(), Name: name, memo: map[int64]Value{}}
+			ln := Fresh(name+"!len", BV(64))
+			x.assume(BvUle(ln, BVU(1<<maxLenBits, 64)))
+			return SliceV{Obj: o, Off: bv64(0), Len: ln, Cap: ln, Nil: False()}
 		}
 		return UnknownV{t, "slice of non-scalar without shape"}
 	case *types.Interface:
@@ -319,6 +350,10 @@ func (x *Exec) heapGet(o *Object) Value {
 		return v
 	}
 	if v, ok := x.constObjs[o]; ok {
+		if lz, isLazy := v.(LazyV); isLazy {
+			v = x.materialise(lz.Name, lz.T)
+			x.constObjs[o] = v
+		}
 		return v
 	}
 	if o.Global != nil {
@@ -610,6 +645,17 @@ func (x *Exec) loadPath(v Value, path []PathElem) Value {
 		return Scalar{Select(vv.Arr, p.Idx)}
 	case *ChoiceV:
 		return x.mergeValue(vv.C, x.loadPath(vv.A, path), x.loadPath(vv.B, path))
+	case LazySeqV:
+		if p.Idx == nil || !p.Idx.IsConst() || !p.Idx.Val.IsInt64() {
+			unsup("element of an untracked sequence at a symbolic index")
+		}
+		i := p.Idx.Val.Int64()
+		e, ok := vv.memo[i]
+		if !ok {
+			e = x.materialise(fmt.Sprintf("%s[%d]", vv.Name, i), vv.Elem)
+			vv.memo[i] = e
+		}
+		return x.loadPath(e, path[1:])
 	case UnknownV:
 		return vv
 	}
@@ -913,4 +959,16 @@ func (x *Exec) underPC(t *Term) *Term {
 func (x *Exec) shapeOf(name string) (int, bool) {
 	n, ok := x.shapeLen[strings.TrimLeft(name, "*")]
 	return n, ok
+}
+
+// materialise builds the value of a lazy object: one pointer level deep, pointers and sequences
+// below it lazy again; what it creates lives in constObjs (shared by all paths), nothing is a
+// harness input.
+func (x *Exec) materialise(name string, t types.Type) Value {
+	saved, n := x.lazy, len(x.inputs)
+	x.lazy = true
+	v := x.freshValue(name, t, 0)
+	x.lazy = saved
+	x.inputs = x.inputs[:n]
+	return v
 }
